@@ -1,7 +1,7 @@
 /-
   Dirk.Gen.Kernels — GENERATED — do not edit.  Regenerated on every run by /verif/factx (kernels.go) from the
   Go source of the decision kernels (rules/standard, services/checker/static, services/process/standard,
-  util/scatter.go, services/api/grpc/handlers/receiver, services/peers/static);
+  util/scatter.go, services/api/grpc/handlers/receiver, services/peers/static, slashingprotection.go);
   Dirk/Props/KernelsEq.lean proves each definition
   equal to the hand-written model function.  A kernel outside the translatable fragment appears as
   `kernelUntranslatable_<name>` instead, and KernelsEq.lean does not build.
@@ -274,6 +274,91 @@ def suitableRefusesGuards : List String := [
   "uint64(threshold) > uint64(len(s.peers)) => refuse",
   "[skipped local: suitable := uint32(0)]",
   "[first allocation: res := make([]*core.Endpoint, threshold)]"
+]
+
+/-- `storeSlashingProtection` (slashingprotection.go), the record the merge of one file entry starts from, as (slot, source, target).
+    `fromFile`: the record already in the map being built (the key was seen earlier in this file); `fromStore`: the key's record in
+    the export of the existing store; model counterpart: `Dirk.mergeEntries (the start record)`. -/
+def importStartGen (fromFile fromStore : Option (Int × Int × Int)) : Int × Int × Int :=
+  match fromFile with
+  | some kp => kp
+  | none =>
+    let curSlot : Int := (-1)
+    let curSrc : Int := (-1)
+    let curTgt : Int := (-1)
+    match fromStore with
+    | none => (curSlot, curSrc, curTgt)
+    | some ex =>
+      let curSrc : Int := ex.2.1
+      let curTgt : Int := ex.2.2
+      let curSlot : Int := ex.1
+      (curSlot, curSrc, curTgt)
+
+/-- the guards of `storeSlashingProtection`, as written in the source, in order -/
+def importStartGuards : List String := [
+  "[key] bytes, err := hex.DecodeString(strings.TrimPrefix(protection.Data[i].PublicKey, \"0x\")); err != nil => refuse",
+  "[key] var key [48]byte",
+  "[key] copy(key[:], bytes)",
+  "keyProtection, exists := protectionMap[key]  [map lookup: the record ↦ fromFile]",
+  "!exists => {",
+  "  keyProtection = &rules.SlashingProtection{ HighestAttestedSourceEpoch: -1, HighestAttestedTargetEpoch: -1, HighestProposedSlot: -1, }",
+  "  [existingProtection, err := rulesSvc.ExportSlashingProtection(ctx)]",
+  "  existingKeyProtection, exists := existingProtection[key]; exists => {  [map lookup: the record ↦ fromStore]",
+  "    keyProtection.HighestAttestedSourceEpoch = existingKeyProtection.HighestAttestedSourceEpoch",
+  "    keyProtection.HighestAttestedTargetEpoch = existingKeyProtection.HighestAttestedTargetEpoch",
+  "    keyProtection.HighestProposedSlot = existingKeyProtection.HighestProposedSlot",
+  "  }",
+  "}",
+  "[loops over the entry: attestations;blocks;]",
+  "protectionMap[key] = keyProtection"
+]
+
+/-- `storeSlashingProtection` (slashingprotection.go), one iteration of the loop over the entry's signed attestations.  `curSrc`, `curTgt`: the record's HighestAttestedSourceEpoch / …TargetEpoch;
+    `src`, `tgt`: strconv.ParseInt(attestation.SourceEpoch / .TargetEpoch, 10, 64) (`none` = it returned an error);
+    result `none` = the function returns an error, else the two fields after the iteration; model counterpart: `Dirk.foldAtts (one element)`. -/
+def importAttStepGen (curSrc curTgt : Int) (src tgt : Option Int) : Option (Int × Int) :=
+  match src with
+  | none => none
+  | some v_sourceEpoch =>
+    if v_sourceEpoch < 0 then none else
+    let curSrc : Int := if v_sourceEpoch > curSrc then v_sourceEpoch else curSrc
+    match tgt with
+    | none => none
+    | some v_targetEpoch =>
+      if v_targetEpoch < 0 then none else
+      let curTgt : Int := if v_targetEpoch > curTgt then v_targetEpoch else curTgt
+      some (curSrc, curTgt)
+
+/-- the guards of `storeSlashingProtection`, as written in the source, in order -/
+def importAttStepGuards : List String := [
+  "for _, attestation := range protection.Data[i].SignedAttestations {",
+  "  sourceEpoch, err := strconv.ParseInt(attestation.SourceEpoch, 10, 64); err != nil => refuse  [strconv.ParseInt(attestation.SourceEpoch, 10, 64) ↦ src]",
+  "  sourceEpoch < 0 => refuse",
+  "  sourceEpoch > keyProtection.HighestAttestedSourceEpoch => keyProtection.HighestAttestedSourceEpoch = sourceEpoch",
+  "  targetEpoch, err := strconv.ParseInt(attestation.TargetEpoch, 10, 64); err != nil => refuse  [strconv.ParseInt(attestation.TargetEpoch, 10, 64) ↦ tgt]",
+  "  targetEpoch < 0 => refuse",
+  "  targetEpoch > keyProtection.HighestAttestedTargetEpoch => keyProtection.HighestAttestedTargetEpoch = targetEpoch",
+  "}"
+]
+
+/-- `storeSlashingProtection` (slashingprotection.go), one iteration of the loop over the entry's signed blocks.  `curSlot`: the record's HighestProposedSlot;
+    `slot`: strconv.ParseInt(proposal.Slot, 10, 64) (`none` = it returned an error);
+    result `none` = the function returns an error, else the field after the iteration; model counterpart: `Dirk.foldBlocks (one element)`. -/
+def importBlockStepGen (curSlot : Int) (slot : Option Int) : Option Int :=
+  match slot with
+  | none => none
+  | some v_slot =>
+    if v_slot < 0 then none else
+    let curSlot : Int := if v_slot > curSlot then v_slot else curSlot
+    some curSlot
+
+/-- the guards of `storeSlashingProtection`, as written in the source, in order -/
+def importBlockStepGuards : List String := [
+  "for _, proposal := range protection.Data[i].SignedBlocks {",
+  "  slot, err := strconv.ParseInt(proposal.Slot, 10, 64); err != nil => refuse  [strconv.ParseInt(proposal.Slot, 10, 64) ↦ slot]",
+  "  slot < 0 => refuse",
+  "  slot > keyProtection.HighestProposedSlot => keyProtection.HighestProposedSlot = slot",
+  "}"
 ]
 
 end Dirk.Gen
